@@ -82,6 +82,21 @@ CHECKS = {
         note="floating-point accuracy is measured (residual <= 200 n eps |A|), not proved; LAPACK contracts are premises; getrf "
              "not claimed (does not compile, as the property says); Coq 8.16.1 kernel, Print Assumptions recorded in the evidence; "
              "extraction ExtrOcamlBasic only; g++ 12, OpenBLAS/LAPACK as installed"),
+    "C17": dict(
+        text="Theorems C17_roundtrip_array / C17_roundtrip_nested (Coq, all ranks, all extents incl. zero sizes and index bases, "
+             "every prior state of the receiving array, any element type whose own archive codec round-trips): load_array prior "
+             "(save_array a ++ rest) = Some (a, rest) for the model that follows array::serialize and the rvalue reextent step by "
+             "step; C17_view_roundtrip_frame: a view saves exactly its elements in canonical order and loading writes exactly its "
+             "footprint; C17_load_ledger. The model is run against the library with real Boost text/binary/XML archives (loaded "
+             "extents, elements, ==, XML document order, whole receiving buffers, allocator ledger). One defect found by this check "
+             "was fixed in /repo (15bfce8); the former failing inputs are a regression corpus.",
+        design_ref="5/C17", technique="Coq proof (induction over rank and element lists; nested arrays by instantiating the theorem "
+                                      "with itself) + extracted-model vs library differential through real Boost archives, "
+                                      "vm_compute cross-check of the extracted run",
+        note="Coq 8.16.1 kernel; property theorems 'Closed under the global context'; archive primitives and element codecs are "
+             "premises (codec_ok), Boost.Serialization 1.83 as installed; elements() order is C02's; hand-written Gallina model tied "
+             "to /repo by a sampled correspondence check whose generator distribution is in the evidence; Cereal, 0-D views and "
+             "views of re-based arrays not exercised; no 64-bit overflow"),
 }
 
 NOT_YET = {
